@@ -274,10 +274,10 @@ class Interp:
         self.forms = forms
         self.log = []
         self.module = FrameEnv(None, "module")
-        self.module_defined = module_defined_names(forms)
+        # names assigned at module level (not through a let binding of that name)
+        self.module_defined = analyse_function([], forms, set(), [], is_module=True).locals
         self.infos = {}
         self.steps = 0
-        analyse_function([], forms, self.module_defined, [], is_module=True)
         self.static_check(forms, [("module",)], frozenset())
 
     # static pass: analyse every function where it is defined (compile-time errors come first)
@@ -609,7 +609,7 @@ class Gen:
         if kind == "class":
             cname = "C%d" % next(self.fns)
             attrs = [(self.name(), next(self.lits))] if r.random() < 0.7 else []
-            body = self.decls(True) + self.statements(depth + 1, budget - 1, True, callable_fns)
+            body = self.decls(True) + self.statements(depth + 2, budget - 2, True, callable_fns)
             body.append(self.ref(self.name()))
             return ("class", cname, attrs, [("defn", "m", ["self"], body)]), (cname, 0, "class")
         # lfor
@@ -637,6 +637,7 @@ class Gen:
         budget = r.randint(1, 4)
         if r.random() < 0.5:
             # the whole program inside a function (function level)
+            budget = max(1, budget - 1)
             body = self.statements(1, budget, True, [])
             body.append(self.ref(self.name()))
             forms.append(("defn", "main", [], body))
